@@ -131,3 +131,58 @@ func TestWitness_StaleClosedConnFromWorker(t *testing.T) {
 		return
 	})
 }
+
+// Per-peer cap 1, a peer with two addresses: the first fails after a second, the second would
+// succeed. Caller X gives up after 1 ms; its dial worker notices, and before it has cleaned up
+// after itself (schedule point dialWorker:exiting, here 50 ms) caller Y arrives: a new worker
+// dials the first address and queues the second behind the per-peer cap. The old worker's
+// clean-up (clearAllPeerDials) used to drop every queued dial of that PEER, the new worker's
+// too: the second address was never dialled and Y waited for the one-minute dial timeout.
+// Repaired in /repo (only cancelled jobs are dropped).
+func TestWitness_DyingWorkerDropsSuccessorsQueue(t *testing.T) {
+	hx.Shard0(t)
+	kf.Witness(t, "C05-dying-worker-drops-successors-queue", func() (violated bool, detail string) {
+		synctest.Test(t, func(*testing.T) {
+			old := swarm.DefaultPerPeerRateLimit
+			swarm.DefaultPerPeerRateLimit = 1
+			workerExitDelay.Store(int64(50 * time.Millisecond))
+			defer func() { swarm.DefaultPerPeerRateLimit = old; workerExitDelay.Store(0) }()
+			local := keys.Ed(0)
+			ps, _ := pstoremem.NewPeerstore()
+			defer ps.Close()
+			P := keys.Ed(41).ID
+			first, second := ma.StringCast("/ip4/192.168.7.1/tcp/4001"), ma.StringCast("/ip4/192.168.7.2/tcp/4001")
+			w := scripted.NewWorld()
+			set := scripted.NewSet(w, local.ID, func(a ma.Multiaddr, _ peer.ID, _ int) scripted.Script {
+				if a.Equal(second) {
+					return scripted.Script{Outcome: scripted.Succeed, Delay: 10 * time.Millisecond}
+				}
+				return scripted.Script{Outcome: scripted.Fail, Delay: time.Second}
+			})
+			sw, err := swarm.NewSwarm(local.ID, ps, eventbus.NewBus(), swarm.WithUDPBlackHoleSuccessCounter(nil), swarm.WithIPv6BlackHoleSuccessCounter(nil))
+			if err != nil {
+				t.Fatal(err)
+			}
+			defer func() { sw.Close(); time.Sleep(time.Second); synctest.Wait() }()
+			sw.AddTransport(set.TCP)
+			ps.AddAddrs(P, []ma.Multiaddr{first, second}, time.Hour)
+			x, cancelX := context.WithTimeout(context.Background(), time.Millisecond)
+			defer cancelX()
+			sw.DialPeer(x, P)
+			time.Sleep(time.Millisecond)
+			start := time.Now()
+			c, err := sw.DialPeer(context.Background(), P)
+			tried := 0
+			for _, d := range w.Snapshot() {
+				if d.Addr.Equal(second) {
+					tried++
+				}
+			}
+			if err != nil || c == nil || tried == 0 {
+				violated, detail = true, fmt.Sprintf("caller Y, arriving 1 ms after caller X gave up, waited %v and got (%v, %v); the peer's second address was handed to a transport %d times (a dial of it would have succeeded)",
+					time.Since(start), c, err, tried)
+			}
+		})
+		return
+	})
+}
